@@ -11,6 +11,8 @@ import Driver.Common
 import Driver.BuildOps
 import Driver.UnitOps
 import Driver.RenderOps
+import Driver.SvgOps
+import Driver.WasmOps
 import FastQr.Model.Version
 import FastQr.Model.Classify
 import FastQr.Spec.Capacity
@@ -73,6 +75,9 @@ def handle (prop : String) (line : String) : String :=
       | "pair" => opPair args res
       | "select" => opSelect args res
       | "term" => opTerm args res
+      | "svg" => opSvg prop args res
+      | "wasm" => opWasm args res
+      | "wasmqr" => opWasmQr args res
       | _ => { spec := some s!"unknown-op:{op}" }
     v.render
 
